@@ -633,3 +633,128 @@ for _p in _properties():
          clause="For a parameter whose default is a number, `p or c` with a non-zero numeric c silently turns an explicit 0 into c "
                 "(prefixlength=0, maxdist=0, boost=0, slop=0 are all meaningful). Expected count on the tree: zero; the detector is "
                 "checked against a built-in example on every run.")(_make_g6(_p["id"]))
+
+
+# ---------------------------------------------------------------------------------------------------------------------------
+#  G7  every global name a function reads is bound by its module (or is a builtin)
+#      symtable over the module source gives, per function, the names it treats as globals; the module binds a name through a
+#      def/class/assignment/import at any nesting of its top-level statements (if/try/with/for), star imports are followed into the
+#      package.  What is left would be a NameError when the statement runs.
+
+import builtins as _builtins
+import symtable as _symtable
+
+GLOBAL_OK = {
+    ("whoosh.fields", "ReverseField.__init__", "BasicFormat"):
+        "ReverseField is a leftover nothing in the package or its tests constructs; the format class it names does not exist (it would "
+        "raise NameError on construction). Not a field type the properties quantify over",
+    ("whoosh.util", "random_bytes", "array"): "Python 2 branch (sys.version_info[0] < 3) only",
+}
+_PY_NAMES = set(dir(_builtins)) | set("__file__ __name__ __doc__ __builtins__ __path__ __package__ __spec__ __loader__ unicode xrange basestring long "
+                                      "unichr raw_input reduce cmp file buffer WindowsError".split())
+
+
+def _module_bindings(prog, m, seen=None):
+    seen = seen if seen is not None else set()
+    if m.name in seen:
+        return set()
+    seen.add(m.name)
+    out = set()
+    tree = ast.parse(m.source)
+
+    def names_of(t):
+        return [x.id for x in ast.walk(t) if isinstance(x, ast.Name)]
+
+    def top(body):
+        for st in body:
+            if isinstance(st, (ast.FunctionDef, ast.ClassDef, ast.AsyncFunctionDef)):
+                out.add(st.name)
+            elif isinstance(st, ast.Assign):
+                for t in st.targets:
+                    out.update(names_of(t))
+            elif isinstance(st, (ast.AugAssign, ast.AnnAssign)):
+                out.update(names_of(st.target))
+            elif isinstance(st, ast.Import):
+                for a in st.names:
+                    out.add((a.asname or a.name).split(".")[0])
+            elif isinstance(st, ast.ImportFrom):
+                for a in st.names:
+                    if a.name == "*":
+                        m2 = prog.modules.get(prog._abs_module(m, st.module, st.level))
+                        if m2 is not None:
+                            out.update(_module_bindings(prog, m2, seen))
+                        else:
+                            out.add("*")
+                    else:
+                        out.add(a.asname or a.name)
+            elif isinstance(st, (ast.If, ast.Try, ast.With, ast.For, ast.While)):
+                for fld in ("body", "orelse", "finalbody"):
+                    top(getattr(st, fld, None) or [])
+                if isinstance(st, ast.Try):
+                    for h in st.handlers:
+                        if h.name:
+                            out.add(h.name)
+                        top(h.body)
+                if isinstance(st, ast.For):
+                    out.update(names_of(st.target))
+                if isinstance(st, ast.With):
+                    for i in st.items:
+                        if i.optional_vars is not None:
+                            out.update(names_of(i.optional_vars))
+    top(tree.body)
+    return out
+
+
+def unbound_globals(prog, m):
+    try:
+        st = _symtable.symtable(m.source, m.path, "exec")
+    except Exception:
+        return None
+    bound = _module_bindings(prog, m)
+    if "*" in bound:
+        return []
+    out = []
+
+    def walk(tab, path):
+        for ch in tab.get_children():
+            q = (path + "." if path else "") + ch.get_name()
+            if ch.get_type() == "function":
+                for s in ch.get_symbols():
+                    if s.is_global() and s.is_referenced() and not s.is_assigned():
+                        nm = s.get_name()
+                        if nm not in bound and nm not in _PY_NAMES and (m.name, q, nm) not in GLOBAL_OK:
+                            out.append((q, nm, ch.get_lineno()))
+            walk(ch, q)
+    walk(st, "")
+    return out
+
+
+def _make_g7(pid):
+    def g7(ctx):
+        prog = ctx.prog
+        files = None
+        for p in _properties():
+            if p["id"] == pid:
+                files = set(p["anchors"]["files"])
+        n = 0
+        for m in sorted(prog.modules.values(), key=lambda x: x.name):
+            if m.relpath not in files:
+                continue
+            r = unbound_globals(prog, m)
+            if r is None:
+                raise AnalysisError("%s-G7: symtable could not read %s" % (pid, m.relpath))
+            n += 1
+            ctx.ob(m.name, not r, "every global name the functions of %s read is bound by the module" % m.name,
+                   detail="; ".join("%s reads `%s` (line %d)" % x for x in r[:6]) + (": NameError when the statement runs" if r else ""),
+                   loc=m.relpath + (":%d" % r[0][2] if r else ":1"))
+        if n < 3:
+            raise AnalysisError("%s-G7: only %d anchor modules" % (pid, n))
+    return g7
+
+
+for _p in _properties():
+    rule(_p["id"], "G7", "K10", "every global name a function reads is bound by its module",
+         clause="Per anchor module: a name a function uses as a global (symbol table of the module source) is bound at module level -- "
+                "def, class, assignment, import, star import followed into the package -- or is a builtin. A helper renamed or an import "
+                "dropped while a rarely run branch still uses the old name raises NameError only on that branch. Reviewed exceptions: "
+                "generic.GLOBAL_OK.")(_make_g7(_p["id"]))
